@@ -1,5 +1,6 @@
 import DoitModel.Proofs.C20
 import DoitModel.Proofs.Status
+import DoitModel.Proofs.StatusNoCrash
 /-! # C20: the `changed_file_dep` reason against what the last recorded successful execution saw (ghost state) -/
 namespace DoitModel.Intro
 open DoitModel.Status
@@ -53,5 +54,14 @@ theorem changed_iff_other {s : St} (hinv : Inv s) (t : Name) (e : Exec) (he : s.
   have hcc : checkerChanged s.checker (s.rcd t) = true := by
     simp [checkerChanged, hc, hck]
   simp only [infoReasons, reasonsOf, List.mem_filter, logRcd, hcc, if_true, listed_empty]
+
+/-- a state in which only md5 states are saved and md5 is configured (every history without a checker switch): no
+    saved state of the wrong shape -/
+theorem md5Only_no_crash {s : St} (h : Md5Only s) (t : Name) :
+    (s.defs t).deps.any (depIs .crash s.checker (s.rcd t) s.fs) = false := by
+  rw [List.any_eq_false]
+  intro p _
+  rw [h.ck]
+  simp [depIs_crash_false (h.shape t) s.fs p]
 
 end DoitModel.Intro
